@@ -163,6 +163,11 @@ def main(pid, extra_units=None, extra_bounds=None, extra_uncovered=None, post=No
             xj.append(('eval %r k=3' % (sh,), evalcore.unit_sketch, (sh, 3, {})))
             if sh[0] == 'cc':
                 xj.append(('eval %r k=3 release profile (overflow wraps)' % (sh,), evalcore.unit_sketch, (sh, 3, dict(config=dict(overflow_checks=False)))))
+    if pid == 'C07':
+        # the CLI clause: `rsbdd -m -t` prints exactly one satisfying row (model, then the printing recursion of the binary)
+        import printcore
+        for kk in (1, 2, 3):
+            xj.append(('model then print_truth_table_recursive k=%d' % kk, printcore.unit_print_model, (kk, {})))
     if pid == 'C20':
         # the same diagram retained twice in one environment with two independent filters (state threaded through)
         xj.append(('history retain ; retain k=2', unit_pair, ('retain', 'retain', 2, {})))
